@@ -9,7 +9,7 @@ use crate::json::J;
 use crate::model::*;
 use crate::rng::Rng;
 
-pub const RULE: &str = "case = one sampling run: dataset of 2..60 DNA or protein sequences (lengths width+1..300; random, with sparse wildcards, one fully masked sequence whose every window holds a wildcard, or tiny datasets whose background lacks symbols; some striped sequences carry more look-ahead rows than the width needs, one in four is hand-built over a matrix taller than it needs; builder temperature in {0, 0.5, 1, 2}), width 2..30, mode Oops or Zoops (seeds >= 2, several inertia / patience settings), 150..2000 steps, dispatcher forced to each arm. After construction and after EVERY next() the trace checker recomputes from the linear sequences and the reported (active sequences, starts): motif counts = window counts, background = normalised (symbol counts - window counts) of the active sequences, every start + width <= sequence length, Iteration.counts = counts of the previous alignment without the held-out sequence, step increments by one; a twin run with the same data / parameters / seed must give an identical trace. Non-trivial = run in which some start changed; distinct = distinct (dataset, parameters, seed).";
+pub const RULE: &str = "case = one sampling run: dataset of 2..60 DNA or protein sequences (lengths width+1..300; random, with sparse wildcards, one fully masked sequence whose every window holds a wildcard, or tiny datasets whose background lacks symbols; some striped sequences carry more look-ahead rows than the width needs, one in four is hand-built over a matrix taller than it needs, one in three was configured for a shorter motif before; builder temperature in {0, 0.5, 1, 2}), width 2..30, mode Oops or Zoops (seeds >= 2, several inertia / patience settings), 150..2000 steps, dispatcher forced to each arm. After construction and after EVERY next() the trace checker recomputes from the linear sequences and the reported (active sequences, starts): motif counts = window counts, background = normalised (symbol counts - window counts) of the active sequences, every start + width <= sequence length, Iteration.counts = counts of the previous alignment without the held-out sequence, step increments by one; a twin run with the same data / parameters / seed must give an identical trace. Non-trivial = run in which some start changed; distinct = distinct (dataset, parameters, seed).";
 
 pub const REQUIRED: &[&str] = &[
     "alphabet.dna", "alphabet.protein", "mode.oops", "mode.zoops", "arm.dispatch[generic]", "arm.dispatch[sse2]",
@@ -71,6 +71,11 @@ fn run_once<A: Alphabet>(
                 let mut st: StripedSequence<A, U32> = if (s.len() + i) % 4 == 1 { stripe_tall(s, 1 + (i % 3)) } else { stripe_generic(&encoded::<A>(s)) };
                 // some sequences carry more look-ahead rows than the width needs (they served a
                 // longer motif before); a function of the data only, so that repeated runs agree
+                // ... and some were configured before, for a shorter motif (look-ahead rows built in
+                // two steps)
+                if (s.len() + 2 * i) % 3 == 0 && width >= 3 {
+                    st.configure_wrap(1 + (s.len() + i) % (width - 1));
+                }
                 st.configure_wrap(width + extra_wrap(s.len(), width, i));
                 st
             })
